@@ -88,8 +88,14 @@ def wrap_non_picklable_objects(obj, keep_wrapper=True):
     # If obj is a  class, create a CloudpickledClassWrapper which instantiates
     # the object internally and wrap it directly in a CloudpickledObjectWrapper
     if inspect.isclass(obj):
+        # Instances are callable iff the wrapped class defines __call__
+        wrapper_base = (
+            CallableObjectWrapper
+            if any("__call__" in vars(klass) for klass in obj.__mro__)
+            else CloudpickledObjectWrapper
+        )
 
-        class CloudpickledClassWrapper(CloudpickledObjectWrapper):
+        class CloudpickledClassWrapper(wrapper_base):
             def __init__(self, *args, **kwargs):
                 self._obj = obj(*args, **kwargs)
                 self._keep_wrapper = keep_wrapper
